@@ -67,6 +67,7 @@ class ItemSpec:
     attrs: str = None
     trusted: bool = False
     hoist: bool = False
+    armfn: str = None
     requires: list = field(default_factory=list)
     ensures: list = field(default_factory=list)
     decreases: str = None
@@ -153,6 +154,8 @@ def parse_item_block(header, body_lines, tmpl_path, first_line):
                 spec.attrs = rest
             elif word == "trusted":
                 spec.trusted = True
+            elif word == "armfn":
+                spec.armfn = rest
             elif word == "hoist":
                 spec.hoist = True
             elif word == "requires":
@@ -528,6 +531,28 @@ class Splicer:
         # signature: ret + requires/ensures
         if self.kw == "fn":
             self._splice_signature()
+        elif self.kw == "arm":
+            # R16 (arm lifting): the block of a match arm becomes the body of a named fn whose parameters are the block's free variables
+            if not spec.armfn:
+                raise TemplateError(f"{self.item_id}: `arm` item needs an `armfn <signature>` directive")
+            self.ins_before(0, spec.armfn, ("tmpl", "armfn", 0))
+            self.log("R16", 0, f"match arm `{spec.selector.split(' :: ')[-1]}` lifted to `{spec.armfn}`")
+            lines = []
+            if spec.requires:
+                lines.append(("    requires", None))
+                for cl in spec.requires:
+                    lines.append((f"        {cl.expr}, // [{cl.cid}]", cl))
+            if spec.ensures:
+                lines.append(("    ensures", None))
+                for cl in spec.ensures:
+                    lines.append((f"        {cl.expr}, // [{cl.cid}]", cl))
+            for text, cl in lines:
+                if cl is None:
+                    origin = ("clausehdr", self.item_id, "sig")
+                else:
+                    origin = ("clause", self.item_id, cl.cid, cl.kind, cl.tags)
+                    self.clauses.append(cl)
+                self.ins_before(0, text, origin)
 
     def _apply_trusted(self):
         """Assumed contract: keep the signature (with its rewrites and contract), replace the body."""
@@ -815,7 +840,7 @@ def generate(template_path, repo, canary=False, only_items=None):
                 sp = Splicer(sf, item, spec, rules)
                 sp.apply()
                 rendered = sp.render()
-                if canary and sp.body_open >= 0 and not spec.trusted and sp.kw == "fn":
+                if canary and sp.body_open >= 0 and not spec.trusted and sp.kw in ("fn", "arm"):
                     rendered = _canary(rendered, sp)
                 chunks.extend(rendered)
                 raw = sf.item_text(item)
@@ -823,7 +848,7 @@ def generate(template_path, repo, canary=False, only_items=None):
                     file=spec.file, selector=spec.selector,
                     lines=[sf.line_of(sf.toks[item.start].start), sf.line_of(sf.toks[item.end].start)],
                     sha256=hashlib.sha256(raw.encode()).hexdigest(), props=spec.props, trusted=spec.trusted,
-                    kind=item.kw))
+                    kind="fn" if item.kw == "arm" else item.kw))
                 for cl in sp.clauses:
                     clauses_meta.append(dict(item=spec.item_id, cid=cl.cid, kind=cl.kind, tags=cl.tags or spec.props, trusted=spec.trusted))
                 continue
